@@ -45,6 +45,8 @@ func c02(c *Ctx) (*report.Result, error) {
 	res.Assumptions = []string{"servercommon.WorkflowIDToHistoryShard is Temporal's shard hash"}
 	res.RuleDoc["O2.7"] = "no swallowed error in the files the mechanism lives in: no function returns a nil error on a path on which an error obtained from a call is known to be non-nil (io.EOF from a stream Recv, the normal end of a receive loop, is the one accepted idiom)"
 	checkNoSwallowedErrors(c, res, "O2.7", []string{"proxy/proxy_streams.go", "proxy/shard_manager.go"})
+	res.RuleDoc["O2.8"] = "relay loops pass every message on: in every loop that takes messages from a stream or channel and forwards them, no path from the take to the next take avoids every stream Send / channel send / Deliver*ToShardOwner (a forwarding loop that runs zero times, the wrong-kind edges of a type assertion and a return that ends the stream are not bypasses; the ack aggregator sendAck is the reviewed exception)"
+	checkRelayLoops(c, res, "O2.8", []string{"proxy/proxy_streams.go", "proxy/intra_proxy_router.go"}, 5)
 	return res, nil
 }
 
@@ -792,6 +794,8 @@ func c04(c *Ctx) (*report.Result, error) {
 	res.Assumptions = []string{"the source cluster resends from its acknowledged level after a reconnect (Temporal behaviour)"}
 	res.RuleDoc["O4.10"] = "no swallowed error in the files the mechanism lives in: no function returns a nil error on a path on which an error obtained from a call is known to be non-nil (io.EOF from a stream Recv, the normal end of a receive loop, is the one accepted idiom)"
 	checkNoSwallowedErrors(c, res, "O4.10", []string{"proxy/proxy_streams.go", "proxy/admin_stream_transfer.go", "proxy/shard_manager.go"})
+	res.RuleDoc["O4.11"] = "relay loops pass every message on: in every loop that takes messages from a stream or channel and forwards them, no path from the take to the next take avoids every stream Send / channel send / Deliver*ToShardOwner (a forwarding loop that runs zero times, the wrong-kind edges of a type assertion and a return that ends the stream are not bypasses; the ack aggregator sendAck is the reviewed exception)"
+	checkRelayLoops(c, res, "O4.11", []string{"proxy/proxy_streams.go", "proxy/intra_proxy_router.go"}, 5)
 	return res, nil
 }
 
